@@ -1283,4 +1283,7 @@ def sensors_callees():
     c[BasicBlockInit.key] = BasicBlockInit()
     c[SensorModelInitApply.key] = SensorModelInitApply()
     c[FromDictApply.key] = FromDictApply()
+    from contracts import sklearn as _sk
+
+    c[_sk.NearestPD.key] = _sk.NearestPD()  # caller-side form only: a constructor that starts clamping the supplied noise is visible
     return c
